@@ -21,6 +21,7 @@ import (
 	"verifharness/drv/c20"
 	conndrv "verifharness/drv/conn"
 	execdrv "verifharness/drv/exec"
+	"verifharness/drv/fedplan"
 	rxdrv "verifharness/drv/reactive"
 )
 
@@ -39,6 +40,7 @@ var cmds = map[string]func([]string) error{
 	"c18": c18.Main,
 	"c20": c20.Main,
 	"conn": conndrv.Main,
+	"fedplan": fedplan.Main,
 	"exec": execdrv.Main,
 	"reactive": rxdrv.Main,
 }
